@@ -224,6 +224,12 @@ theorem compileStmtH_acc : (s : CStmt) → {st st' : HSt} → {eff : Option ILEf
       have hr : isHTmp "ret_val" = false := by rw [isHTmp_eq]; decide
       refine (exprAcc eq env (by simpa [stmtNames] using hv) (by simpa [noConstTernS] using hd) h1).congr ?_
       intro x; simp [effL, setTmpsL, setTmps, hr]
+  | .vcall name exts args params, st, st', eff, b, hv, hd, h => by
+      obtain ⟨cargs, h1, rfl, _⟩ := invS_vcall h
+      have hA : Acc eq st [] st' := Acc.of_cnt (compileArgsH_rel (cntRelE eq) env args params
+        (by simpa [stmtNames] using hv) (by simpa [noConstTernS] using hd) h1)
+      refine hA.congr ?_
+      intro x; simp [effL, setTmpsL, setTmps, vcallEffect]
   | .skip w, st, st', eff, b, _, _, h => by
       obtain ⟨⟨x, rfl, hx⟩, _, rfl⟩ := invS_skip h
       refine (Acc.refl eq _).congr ?_
